@@ -269,6 +269,34 @@ def run(chk):
                 chk.violation('Position:connection-context', 'a block-placement packet carrying the context of protocol %d, written through a '
                               'connection at protocol %d, does not contain the position (%d, %d, %d) packed for protocol %d (%s): wrote %s'
                               % (va, vb, x, y, z, vb, word.hex(), data[:24].hex()), {'from': va, 'to': vb})
+    # ---- a release that becomes known only at run time (a record appended + initglobals(use_known_records=True)) is later
+    #      than 1.14: its positions are packed x, z, y like every version from 477 on
+    latest_rel = max(v for v in mc.KNOWN_PROTOCOL_VERSIONS if v < (1 << 30))
+    added = [mc.Version('verif-next-release', latest_rel + 1, True), mc.Version('verif-next-snapshot', (1 << 30) + 4000, True)]
+    try:
+        mc.KNOWN_MINECRAFT_VERSION_RECORDS.extend(added)
+        mc.initglobals(use_known_records=True)
+        for a in added:
+            ctx_new = ConnectionContext(protocol_version=a.protocol)
+            for (x, y, z) in ((1200, 65, -420), (-33554432, -2048, 33554431), (7, 2047, -7)):
+                sink = Sink()
+                try:
+                    T.Position.send_with_context(T.Position(x=x, y=y, z=z), sink, ctx_new)
+                    data = sink.value()
+                    back = tuple(T.Position.read_with_context(CountingStream(Position_word(None, x, y, z, True)), ctx_new))
+                except Exception as e:      # noqa
+                    data, back = repr(e).encode(), None
+                chk.evaluations += 1
+                chk.case(('run-time-version', a.protocol, x, y, z))
+                if data != Position_word(None, x, y, z, True) or back != (x, y, z):
+                    chk.violation('Position:run-time-version', 'protocol %d, made known at run time (later than every shipped version): (%d, %d, %d) '
+                                  'is packed as %s (x, z, y layout: %s) and the reference word reads back as %r'
+                                  % (a.protocol, x, y, z, data[:8].hex(), Position_word(None, x, y, z, True).hex(), back), {'protocol': a.protocol})
+    finally:
+        for a in added:
+            if a in mc.KNOWN_MINECRAFT_VERSION_RECORDS:
+                mc.KNOWN_MINECRAFT_VERSION_RECORDS.remove(a)
+        mc.initglobals(use_known_records=True)
     # ---- "the connection's context" is one object for the life of the Connection: an application that took it before
     #      connect() (to pack positions for its own purposes) sees the negotiated protocol in it once the login has begun
     from ..session import Run, TracingScript
